@@ -399,11 +399,38 @@ func (c *controller) probeTurnstile(first, second *thread) (blocked bool, err er
 			}
 		}
 	}
+	// the earlier commit goes on, up to the inside of its Send (it has passed the turnstile, has copied the
+	// listener list and has delivered nothing yet): the later one must STILL be waiting -- the turnstile is
+	// held until the publication has been delivered, not merely until it has been entered
+	first.extra.Store("bus.send.snapshot")
 	first.resume <- struct{}{}
 	first.steps++
 	p, ended, err := awaitPark(first.park, first.done)
+	first.extra.Store("")
 	if err != nil {
 		return blocked, fmt.Errorf("the earlier commit could not publish while the later one was waiting: %v", err)
+	}
+	if !ended && p == "bus.send.snapshot" {
+		if !secondDone {
+			if err := settle(); err != nil {
+				return blocked, err
+			}
+			select {
+			case p2 := <-second.park:
+				second.at, secondDone, blocked = p2, true, false
+			case <-second.done:
+				second.ended, secondDone, blocked = true, true, false
+			default:
+				if !inTurnstile(second.gid) {
+					return false, fmt.Errorf("the released thread is blocked, but not in the turnstile (last at %q)", second.at)
+				}
+			}
+		}
+		first.resume <- struct{}{}
+		p, ended, err = awaitPark(first.park, first.done)
+		if err != nil {
+			return blocked, fmt.Errorf("the earlier commit could not finish its publication: %v", err)
+		}
 	}
 	if ended {
 		first.ended = true
